@@ -30,6 +30,15 @@ CLAIMS = {
    note="Kernel only: the model/room filter of GraphDatabase::add_nodes/add_edges, the inline edge right check in process_message and the signature "
         "thread pool are async bodies over service handles and are outside this claim (DESIGN.md §3 C02). Same trusted base as C01.",
    design='DESIGN.md §3 C02'),
+ 'C12': dict(
+   level='model_checking',
+   text="A relational query over the two real implementations: on one symbolic room state the MIR of validate_entity_mutation (local) and of validate_node "
+        "(remote) is executed on the same written row (author = caller, date, entity, new room, previous room/author, size), and validate_deletion against "
+        "validate_node_deletions / validate_edge_deletions on the tombstone the local path built; z3 shows local Ok <=> remote accept on every path. "
+        "A sat answer is a write one side accepts and the other refuses, replayed on both real functions.",
+   note="Restricted to rows in a room and non-system entities; model validation and the inline edge-insertion check are outside the kernel; the local "
+        "deletion check date is tied to the tombstone's deletion date (the property's same-date clause). Same trusted base as C01.",
+   design='DESIGN.md §3 C12'),
 }
 
 NA = {
